@@ -8,11 +8,24 @@
 #include <ctime>
 #include <unistd.h>
 #include <vector>
+// guarded factorization hook: counts the events, so that the run can say whether the places where the library draws random numbers were reached
+static long g_breakdown_resolved = 0, g_breakdown_unresolved = 0, g_inits = 0;
+static inline void c19_hook(const char* point)
+{
+    if (!strcmp(point, "breakdown")) g_breakdown_resolved++;
+    else if (!strcmp(point, "breakdown-unresolved")) g_breakdown_unresolved++;
+    else if (!strcmp(point, "init")) g_inits++;
+}
+#define SPECTRA_VERIF_FAC_HOOK(point, fac, k) c19_hook(point)
 #include <Spectra/Util/SimpleRandom.h>
 #include <Spectra/SymEigsSolver.h>
+#include <Spectra/HermEigsSolver.h>
 #include <Spectra/GenEigsSolver.h>
+#include <Spectra/GenEigsComplexShiftSolver.h>
 #include <Spectra/MatOp/DenseSymMatProd.h>
+#include <Spectra/MatOp/DenseHermMatProd.h>
 #include <Spectra/MatOp/DenseGenMatProd.h>
+#include <Spectra/MatOp/DenseGenComplexShiftSolve.h>
 
 static uint64_t h = 1469598103934665603ULL;
 static void mix(const void* p, size_t n) { const unsigned char* c = (const unsigned char*) p; for (size_t i = 0; i < n; i++) { h ^= c[i]; h *= 1099511628211ULL; } }
@@ -64,7 +77,68 @@ int main(int argc, char** argv)
         mix(ev.data(), sizeof(std::complex<double>) * ev.size());
         mix(U.data(), sizeof(std::complex<double>) * U.size());
     }
+    // every other place where the library draws random numbers (HermEigsBase::init / GenEigsBase::init with the default start vector, the probe vector of the
+    // complex-shift back-transformation, and Arnoldi::expand_basis - its first try AND its later tries, which are only reached when A*random lies in the
+    // span of the basis: see the exactly-rank-two matrix below)
+    long rank2_breakdowns = 0;
+    {
+        // exactly rank two with exactly representable entries: range(A) = span(e1, e2) and every basis vector of the factorization has exact zeros elsewhere,
+        // so once the two directions are used up, the first try (f = A*random, projected) leaves a vector inside span(V) or exactly zero and cannot pass
+        Eigen::MatrixXd Z = Eigen::MatrixXd::Zero(n, n);
+        Z(0, 0) = 1; Z(1, 1) = 2;
+        const long b0 = g_breakdown_resolved;
+        {
+            Spectra::DenseSymMatProd<double> op(Z);
+            Spectra::SymEigsSolver<Spectra::DenseSymMatProd<double>> es(op, 3, 9);
+            es.init();
+            try { es.compute(Spectra::SortRule::LargestAlge, 5, 1e-10); Eigen::MatrixXd U = es.eigenvectors(); mix(U.data(), sizeof(double) * U.size()); } catch (const std::exception&) {}
+        }
+        {
+            Eigen::MatrixXd Zg = Z;
+            Zg(0, 1) = 1;
+            Spectra::DenseGenMatProd<double> op(Zg);
+            Spectra::GenEigsSolver<Spectra::DenseGenMatProd<double>> es(op, 3, 9);
+            es.init();
+            try { es.compute(Spectra::SortRule::LargestMagn, 5, 1e-10); Eigen::MatrixXcd U = es.eigenvectors(); mix(U.data(), sizeof(std::complex<double>) * U.size()); } catch (const std::exception&) {}
+        }
+        rank2_breakdowns = g_breakdown_resolved - b0;
+        // rank two: the range is exhausted after two steps
+        Eigen::MatrixXd L = Eigen::MatrixXd::Zero(n, n);
+        for (int i = 0; i < n; i++) for (int j = 0; j < n; j++) L(i, j) = std::sin(1.0 + i) * std::sin(1.0 + j) + 0.5 * std::cos(2.0 * i) * std::cos(2.0 * j);
+        {
+            Spectra::DenseSymMatProd<double> op(L);
+            Spectra::SymEigsSolver<Spectra::DenseSymMatProd<double>> es(op, 3, 10);
+            es.init();
+            try { es.compute(Spectra::SortRule::LargestMagn, 20, 1e-10); Eigen::MatrixXd U = es.eigenvectors(); mix(U.data(), sizeof(double) * U.size()); } catch (const std::exception&) {}
+        }
+        {
+            Eigen::MatrixXd L2 = L;
+            for (int j = 0; j < n; j++) L2(0, j) += std::sin(3.0 * j);   // rank three, not symmetric
+            Spectra::DenseGenMatProd<double> op(L2);
+            Spectra::GenEigsSolver<Spectra::DenseGenMatProd<double>> es(op, 3, 10);
+            es.init();
+            try { es.compute(Spectra::SortRule::LargestMagn, 20, 1e-10); Eigen::MatrixXcd U = es.eigenvectors(); mix(U.data(), sizeof(std::complex<double>) * U.size()); } catch (const std::exception&) {}
+        }
+        {
+            Eigen::MatrixXcd H = (A + std::complex<double>(0, 1) * (G - G.transpose())).eval();
+            Spectra::DenseHermMatProd<std::complex<double>> op(H);
+            Spectra::HermEigsSolver<Spectra::DenseHermMatProd<std::complex<double>>> es(op, 3, 10);
+            es.init();
+            es.compute(Spectra::SortRule::LargestAlge, 300, 1e-10);
+            Eigen::MatrixXcd U = es.eigenvectors();
+            mix(U.data(), sizeof(std::complex<double>) * U.size());
+        }
+        {
+            Spectra::DenseGenComplexShiftSolve<double> op(G);
+            Spectra::GenEigsComplexShiftSolver<Spectra::DenseGenComplexShiftSolve<double>> es(op, 4, 14, 0.3, 0.7);
+            es.init();
+            es.compute(Spectra::SortRule::LargestMagn, 300, 1e-10);
+            Eigen::VectorXcd ev = es.eigenvalues();
+            mix(ev.data(), sizeof(std::complex<double>) * ev.size());
+        }
+    }
     if (write(2, "VF_MARK_END\n", 12) < 0) return 3;
+    printf("REACHED inits=%ld breakdowns_resolved=%ld breakdowns_unresolved=%ld exact_rank_two_breakdowns_resolved=%ld\n", g_inits, g_breakdown_resolved, g_breakdown_unresolved, rank2_breakdowns);
     printf("DIGEST %llu\n", (unsigned long long) h);
     for (void* p : junk) free(p);
     return 0;
